@@ -191,21 +191,21 @@ func (r *Report) Finish(verifDir string, wall float64, seed int, loadInfo map[st
 			"only the listed necessary structural conditions are decided, not the runtime behaviour the property quantifies over",
 		},
 		"coverage": map[string]any{
-			"explanation": Explanations[r.Property],
-			"obligations": total,
-			"discharged":  counts[OK] + counts[EXCLUDED],
-			"known_findings": known,
-			"failing":     viol,
-			"exhaustive":  true,
-			"rules":       r.Rules,
-			"instances":   r.Instances,
-			"samples":     samples,
-			"functions_analysed": fa,
-			"call_sites_examined": r.CallSites,
-			"load":        loadInfo,
+			"explanation":          Explanations[r.Property],
+			"obligations":          total,
+			"discharged":           counts[OK] + counts[EXCLUDED],
+			"known_findings":       known,
+			"failing":              viol,
+			"exhaustive":           true,
+			"rules":                r.Rules,
+			"instances":            r.Instances,
+			"samples":              samples,
+			"functions_analysed":   fa,
+			"call_sites_examined":  r.CallSites,
+			"load":                 loadInfo,
 			"build_configurations": append([]string{"default (linux/amd64, no tags)"}, r.Configs...),
-			"checker_cmd": fmt.Sprintf("bin/gunyucheck -property %s -tier %s", r.Property, r.Tier),
-			"trusted_base": []string{"go/packages", "go/types", "go/ssa", "x/tools v0.29.0 callgraph (cha+vta)", "protocol constants embedded in the checker"},
+			"checker_cmd":          fmt.Sprintf("bin/gunyucheck -property %s -tier %s", r.Property, r.Tier),
+			"trusted_base":         []string{"go/packages", "go/types", "go/ssa", "x/tools v0.29.0 callgraph (cha+vta)", "protocol constants embedded in the checker"},
 		},
 	}
 	_ = os.MkdirAll(filepath.Join(verifDir, "evidence"), 0o755)
